@@ -2,7 +2,7 @@
 
 Shape facts the `TxnScope` model relies on (pure `ast`):
   * abort_store_transaction: does the inner-block branch (`if scope.depth > 0:`) clear `scope.pending`?
-    (as shipped: no — finding F24; with proposed_fixes/F24.diff: yes); it never publishes; the outermost
+    (as shipped: no — finding F35; with commit 50ce0ff: yes); it never publishes; the outermost
     branch unbinds the scope (`_local.scope = None`);
   * commit_store_transaction: returns before publishing while `scope.depth > 0`; unbinds the scope and
     publishes `scope.pending` in order otherwise;
